@@ -31,7 +31,7 @@ m = {
     "engines": ENGINES,
     "checks": checks,
     "not_applicable": NOT_APPLICABLE,
-    "notes": "All checks are property-based tests / fuzzers with explicit oracles (DESIGN.md). Exit 0 held, 1 VIOLATION, 2 harness error (also: a sub-check that exceeds its hard real-time limit). known_findings.json lists 23 genuine defects, all repaired by fix: commits in /repo (fixed entries suppress nothing). seeded/ holds 140 independently written breaking changes (7 rounds x 20 properties) with demonstrations; seeded/RESULTS.md shows the quick tier reporting each of them (tools/run_seeded.sh).",
+    "notes": "All checks are property-based tests / fuzzers with explicit oracles (DESIGN.md). Exit 0 held, 1 VIOLATION, 2 harness error (also: a sub-check that exceeds its hard real-time limit). known_findings.json lists 23 genuine defects, all repaired by fix: commits in /repo (fixed entries suppress nothing). seeded/ holds 160 independently written breaking changes (8 rounds x 20 properties) with demonstrations; seeded/RESULTS.md shows the quick tier reporting 159 of them (tools/run_seeded.sh; five through the neighbouring check named in their meta.json; C12-h, a Group OSCORE change, is a recorded miss).",
 }
 with open(os.path.join(HERE, "MANIFEST.json"), "w") as f:
     json.dump(m, f, indent=1)
